@@ -7,6 +7,7 @@ From RtrV Require Import Pfx.TrieModel Pfx.TrieInv.
 From RtrV Require Import Base.CSem Gen.Generated Rtr.RtrModel Rtr.RelFrame Rtr.RecvBase Rtr.SendBase Rtr.RecvProofs
      Rtr.RecvChunk Rtr.RecvTable Rtr.SendProofs Rtr.SendSites.
 From RtrV Require Rtr.RecvExamples.   (* concrete instances *)
+From RtrV Require Import Base.Mem Gen.GeneratedMem Rtr.CheckSizeTie.
 Local Open Scope Z_scope.
 
 (* ---- (1) termination: all model functions are structural recursions (on the script, or on explicit fuel);
@@ -143,6 +144,22 @@ Theorem C04_stored_prefix : forall p : list byte,
   (key_ok W bits (Z.to_nat len) <-> skipn (Z.to_nat len) bits = repeat false (W - Z.to_nat len)).
 Proof. exact stored_prefix_key_ok. Qed.
 
+(* ---- (5) the size check itself, as translated from /repo's packets.c on every run (memory mode of tools/c2v.py:
+        loads through pointers into the receive buffer, C integer widths, the switch with its breaks): on every
+        complete PDU it computes exactly the model's check_size, and no load leaves the PDU's own bytes (a load
+        outside them would make the translated function return None) ---- *)
+Theorem C04_check_size_translated : forall p,
+  Forall byte_ok p -> 8 <= zlen p -> zlen p = get32 p 4 ->
+  rtr_pdu_check_size_gen (to_host p) (Some 0) = Some (b2z (check_size p)).
+Proof. exact check_size_translated. Qed.
+
+Theorem C04_check_size_reads_inside : forall p,
+  Forall byte_ok p -> 8 <= zlen p -> zlen p = get32 p 4 ->
+  rtr_pdu_check_size_gen (to_host p) (Some 0) <> None.
+Proof. exact check_size_reads_inside. Qed.
+
+Print Assumptions C04_check_size_translated.
+Print Assumptions C04_check_size_reads_inside.
 Print Assumptions C04_recv_contract.
 Print Assumptions C04_recv_all_exact.
 Print Assumptions C04_fuel_store_loop.
